@@ -194,6 +194,7 @@ class PlaceRef(Val):
 
 
 UNIT = UnitV()
+BREAK = UnitV()
 
 
 def subst_val(v, m):
@@ -236,6 +237,9 @@ def opaque_by_type(ty_s, name, types, dims=None):
             return Cond("key", name)
     if k == "adt":
         p = t["path"]
+        for suffix, factory in OPAQUE_ADT_FACTORIES.items():
+            if p.endswith(suffix):
+                return factory(name)
         if p.endswith("SquareMatrix"):
             return Arr(("n", "n"), lambda r, c, _n=name: Num(Expr.leaf(_n, r, c)), name=name)
         if p.endswith("vec::Vec") or p.endswith("SmallVec"):
@@ -246,6 +250,9 @@ def opaque_by_type(ty_s, name, types, dims=None):
     if k in ("slice", "array"):
         return Arr(("?",), lambda i, _n=name, _t=t["t"]: elem_opaque(_t, _n, (i,), types), name=name)
     return Opaque(name)
+
+
+OPAQUE_ADT_FACTORIES = {}
 
 
 def elem_opaque(ty_s, name, idx, types):
@@ -293,6 +300,8 @@ class Interp:
         self.trace = []
         self.early_returns = []
         self.recurrences = []
+        self.breaks = []
+        self.while_loops = []
         self.derived_sizes = {}
         self.var_names = {}
         self.cond_stack = []
@@ -718,6 +727,9 @@ class Interp:
             tv = self.eval(e["then"], env)
         except ReturnSignal as r:
             t_ret = r
+        except BreakSignal:
+            t_ret = ReturnSignal(BREAK)
+            self.breaks.append((c.key(), snapshot(env)))
         finally:
             self.cond_stack.pop()
         tstate = snapshot(env)
@@ -728,10 +740,15 @@ class Interp:
                 ev = self.eval(e["else"], env)
             except ReturnSignal as r:
                 e_ret = r
+            except BreakSignal:
+                e_ret = ReturnSignal(BREAK)
+                self.breaks.append((c.negate().key(), snapshot(env)))
             finally:
                 self.cond_stack.pop()
         estate = snapshot(env)
         if t_ret is not None and e_ret is not None:
+            if t_ret.value is BREAK or e_ret.value is BREAK:
+                raise BreakSignal()
             raise ReturnSignal(merge_vals(c, t_ret.value, e_ret.value))
         if t_ret is not None:
             self.early_returns.append((c.key(), t_ret.value))
@@ -875,10 +892,35 @@ class Interp:
         raise Undecided("match (%s) on %r" % (src, scrut), e.get("span"))
 
     def e_loop(self, e, env):
-        raise Undecided("bare loop / while", e.get("span"))
+        """`while cond { body }` (desugared to loop { if cond { body } else { break } }): the variables the body may modify are
+        havocked (named unknowns); a rule may ask for the per-iteration transfer function through `on_while`."""
+        blk = strip(e["body"])
+        inner = blk if isinstance(blk, dict) and blk.get("k") == "if" else (
+            strip(blk.get("tail")) if isinstance(blk, dict) and blk.get("k") == "block" and not blk.get("stmts") else None)
+        if not (isinstance(inner, dict) and inner.get("k") == "if" and "else" in inner):
+            raise Undecided("bare loop", e.get("span"))
+        muts = mutated_locals({"k": "expr", "e": inner["then"]})
+        inner_vars = collect_bound_vars(inner["then"])
+        muts = [m for m in muts if m[0] not in inner_vars and env.lookup(m[0]) is not None]
+
+        def havoc():
+            for (vid, name, ty) in muts:
+                env.set(vid, opaque_by_type(ty, name, self.types))
+        havoc()
+        if self.on_while is not None:
+            self.on_while(self, inner["cond"], inner["then"], env, muts)
+        havoc()
+        self.while_loops.append([m[1] for m in muts])
+        return UNIT
+
+    on_while = None
 
     def e_break(self, e, env):
+        if self.in_transfer:
+            raise BreakSignal()
         raise Undecided("break outside a summarised loop", e.get("span"))
+
+    in_transfer = False
 
     def e_continue(self, e, env):
         raise Undecided("continue", e.get("span"))
@@ -1091,6 +1133,10 @@ class Interp:
 class ReturnSignal(Exception):
     def __init__(self, value):
         self.value = value
+
+
+class BreakSignal(Exception):
+    pass
 
 
 class NotAPlace(Exception):
